@@ -914,6 +914,9 @@ func (g *c31Gen) dir(prefix []string, depth int, n int, maxSize int64) format.No
 	var prev *ent
 	for i := 0; i < n; i++ {
 		name := fmt.Sprintf("%c%d-%d", 'a'+rune(g.rng.Intn(26)), depth, i)
+		if g.rng.Intn(4) == 0 { // names that need escaping in the URL
+			name = []string{"sp ace", "ünï", "pl+us", "per%25cent", "ha#sh", "qu?ery", "semi;colon", "a=b&c"}[g.rng.Intn(8)] + name
+		}
 		p := append(append([]string{}, prefix...), name)
 		switch {
 		case depth < 2 && i%5 == 1:
@@ -938,7 +941,7 @@ func (g *c31Gen) dir(prefix []string, depth int, n int, maxSize int64) format.No
 	}
 	var nd format.Node
 	if useHamt {
-		sh, err := hamt.NewShard(g.w.dserv, c31Fanout)
+		sh, err := hamt.NewShard(g.w.dserv, []int{8, 8, 8, 16, 256}[g.rng.Intn(5)])
 		if err != nil {
 			panic(err)
 		}
@@ -1030,9 +1033,13 @@ func c31Record(t *testing.T) {
 				continue
 			}
 			rq := g.request(tg)
-			vEmit(M{"ev": "Req", "path": path, "scope": rq.Scope, "has": rq.Has, "from": rq.From, "star": rq.Star,
+			at, rp := root, tg.path
+			if k%5 == 4 { // the content path is just the target's own CID
+				at, rp, path = tg.c, nil, []string{}
+			}
+			vEmit(M{"ev": "Req", "at": w.idOf[c31Key(at)], "path": path, "scope": rq.Scope, "has": rq.Has, "from": rq.From, "star": rq.Star,
 				"to": rq.To, "dups": rq.Dups, "size": tg.size})
-			car := w.getCar(root, tg.path, rq, k)
+			car := w.getCar(at, rp, rq, k)
 			for j, blk := range car.blocks {
 				vEmit(M{"ev": "Block", "n": w.idOf[c31Key(blk.Cid())], "hashOK": car.hashOK[j]})
 			}
@@ -1042,7 +1049,7 @@ func c31Record(t *testing.T) {
 			}
 			off := ""
 			if car.status == 200 {
-				off = w.c31Offline(car, root, tg.path, rq, tg.c)
+				off = w.c31Offline(car, at, rp, rq, tg.c)
 			}
 			vEmit(M{"ev": "End", "root": rootID, "status": car.status, "offlineOK": off == "", "offline": off,
 				"carErr": car.carErr, "blocks": len(car.blocks)})
